@@ -110,8 +110,9 @@ def toolkit(case):
         m.thiele()
     except Exception:
         return rec
-    if allene_or_other_stereo(m) or any(a._stereo is not None and a.atomic_number != 6 for a in m._atoms.values()):
-        return rec         # non-carbon stereocentres / allenes: outside the claim
+    if allene_or_other_stereo(m) or any(a._stereo is not None and a.atomic_number != 6 for a in m._atoms.values()) \
+            or re.search(r'\[\d*(?!C[@H+\-\]:])[A-Za-z]{1,2}@', t):
+        return rec         # non-carbon stereocentres (also when only the text marks them) / allenes: outside the claim
     r1 = Chem.MolFromSmiles(t)
     r2 = Chem.MolFromSmiles(str(m))
     if r1 is None or r2 is None:
